@@ -7,7 +7,7 @@
    there (lemmas all_ctors_guarded ... by vm_compute), which the mdtraj_* statements below combine. *)
 From Coq Require Import List String Bool Arith.
 Import ListNotations.
-Require Import MD.Overwrite.Model MD.Overwrite.Proofs MD.Gen.OverwritePrograms MD.Overwrite.Instances.
+Require Import MD.Overwrite.Model MD.Overwrite.Proofs MD.Gen.OverwritePrograms MD.Gen.OverwriteChecks MD.Overwrite.Instances.
 
 (* mode 'w', force_overwrite=False, something exists at the path: the constructor raises and the node is
    what it was — for every accepted program, every node, every value of the unknown conditions *)
